@@ -54,7 +54,8 @@ int MPI_Barrier(MPI_Comm c);
 
 /* harness-facing interface */
 void fmpi_reset(int n_ranks);
-int fmpi_in_flight(void);                      /* messages sent and not yet received (tag 0) */
+int fmpi_in_flight(void);
+int fmpi_release_held(void);                   /* quiescence: release messages held back by a delivery deviation */                      /* messages sent and not yet received (tag 0) */
 double fmpi_min_in_flight_time(void);          /* smallest lp_msg timestamp among in-flight model messages, or +inf */
 int fmpi_buffer_in_flight(const void *lo, const void *hi); /* is a pending send still referencing [lo,hi)? */
 #endif
